@@ -165,7 +165,12 @@ func execC13(in c13Input) c13Obs {
 		req := make(chan gdbi.ElementLookup, 3)
 		go func() {
 			for k, x := range in.Items {
-				req <- gdbi.ElementLookup{ID: fmt.Sprintf("%d", k), Ref: idTrav(x, 0)}
+				if in.Fan[k] == 99 {
+					// a signal: nothing to load, it must keep its place among the items
+					req <- gdbi.ElementLookup{ID: fmt.Sprintf("%d", k), Ref: &gdbi.BaseTraveler{Signal: &gdbi.Signal{ID: int(x)}}}
+				} else {
+					req <- gdbi.ElementLookup{ID: fmt.Sprintf("%d", k), Ref: idTrav(x, 0)}
+				}
 				d.wait(1, k)
 			}
 			close(req)
@@ -198,7 +203,11 @@ func execC13(in c13Input) c13Obs {
 					return c13Obs{Out: out, Closed: true}
 				}
 				var y uint64
-				fmt.Sscanf(r.Vertex.ID, "%d", &y)
+				if r.Vertex == nil && r.IsSignal() {
+					y = uint64(r.Ref.GetSignal().ID)*10 + 99
+				} else {
+					fmt.Sscanf(r.Vertex.ID, "%d", &y)
+				}
 				out = append(out, []uint64{y})
 			case <-timer:
 				return c13Obs{Out: out, Closed: false}
@@ -324,6 +333,9 @@ func runC13(ctx *Ctx) error {
 				in.Fan = make([]int, length)
 				for i := range in.Fan {
 					in.Fan[i] = rng.Intn(4)
+					if rng.Intn(5) == 0 {
+						in.Fan[i] = 99 // a signal
+					}
 				}
 			}
 			return in
